@@ -74,8 +74,12 @@ class LimitedTaskQueue:
                 released.append(itask)
                 n_active += 1
                 active.update({itask.tdef.name: 1})
-        for itask in held:
-            self.deque.appendleft(itask)
+        # Held tasks keep their place in the queue: put them back at the
+        # front (all were queued before any task still in the deque), so that
+        # a task that is later released from hold is not overtaken by tasks
+        # that were queued after it.
+        for itask in reversed(held):
+            self.deque.append(itask)
         return released
 
     def remove(self, itask: 'TaskProxy') -> bool:
